@@ -106,7 +106,32 @@ def run_unit(A, unit, rep, tier):
     rep.floor(f"argument-storing sites of {cls.name}", n_sinks, 8)
 
 
+def check_validate_method(A, rep):
+    """(e) _validate applies every validator of the class on every path."""
+    seen = {}
+    for cls in A.concrete():
+        owner, v = A.model.lookup(cls, "_validate")
+        if (A.model.lookup(cls, "_all_validators")[1] or ()):
+            seen.setdefault(v.func, cls)
+    for func, cls in seen.items():
+        b, g = A.graph(cls, "_validate", "root", "none")
+        rep.context(g.label, True)
+        calls = [n.id for n in live(g) if n.kind == "call_pkg" and n.stack and len(n.stack) == 1]
+        nvals = len(A.model.lookup(cls, "_all_validators")[1] or ())
+        # the loop over the validators may not be by-passed (a loop body is modelled as 0..n iterations, so the
+        # obligation is on its head)
+        heads = [n.id for n in live(g) if n.kind == "join" and n["what"] == "loop-head" and len(n.stack) == 1
+                 and any(c in g.reachable_from([y for (y, l) in g.succ[n.id]], avoid=[n.id]) for c in calls)]
+        w = g.must_pass(g.entry, [g.exit], heads) if heads else [g.entry]
+        called = {f.qualname for n in live(g) if n.kind == "call_pkg" for f in (n["funcs"] or ())}
+        if w is None and len(called) >= nvals:
+            rep.ok("C11.e", f"C11.e {func.qualname}: every path applies all {nvals} validators of the class")
+        else:
+            rep.fail("C11.e", norm_key("C11.e", func.qualname), f"{func.qualname} can return without having applied the class's validators to the data (e.g. a shortcut for arguments that are already synced collections)", g.witness(w or []), g.label)
+
+
 def check_validators(A, rep):
+    check_validate_method(A, rep)
     m = A.model
     rs = find_resolvers(m)
     vfuncs = {}
